@@ -1,17 +1,928 @@
-(** Proofs for C16.  Part 1: facts about the generated state-machine tables (re-checked against
-    the sources on every run).  Part 2: invariants of the lifecycle model over all histories. *)
+(** Proofs for C16.
+    Part 1: facts about the generated state-machine tables (re-checked against the sources on
+            every run: a changed table makes them fail).
+    Part 2: properties of the interpreter of the command language, by induction on programs;
+            they hold for every program, hence for every operation.
+    Part 3: the property over all histories. *)
 From BX Require Import Base.Prelude Base.Fsm Model.Gate Model.Lifecycle.
 From BXGen Require Import Gen_ObjFsm.
 From Coq Require Import String.
+From Coq Require Import ZifyBool ZifyN ZifyNat.
 Local Open Scope string_scope.
 
 (** * Part 1: the generated tables *)
 
-(** no entry of any table, for any value of lastStatus, has [forbidden] as a source ... *)
-Definition no_exit_b (k : okind) : bool :=
-  forallb (fun e : string * list string * string => negb (mem_s St_Forbidden (snd (fst e)))) (table k "").
+Definition srcs_of (evs : fsm_events) : list string := flat_map (fun e : string * list string * string => snd (fst e)) evs.
 
-Lemma forbidden_no_source_chain : no_exit_b KChain = true. Proof. vm_compute. reflexivity. Qed.
-Lemma forbidden_no_source_svc : no_exit_b KSvc = true. Proof. vm_compute. reflexivity. Qed.
-Lemma forbidden_no_source_role : no_exit_b KRole = true. Proof. vm_compute. reflexivity. Qed.
-Lemma forbidden_no_source_node : no_exit_b KNode = true. Proof. vm_compute. reflexivity. Qed.
+Lemma in_table_src evs k d : In (k, d) (fsm_table evs) -> In (snd k) (srcs_of evs).
+Proof.
+  unfold fsm_table, srcs_of. intro H. apply in_flat_map in H. destruct H as [x [Hin Hm]]. destruct x as [[name srcs] dst].
+  apply in_map_iff in Hm. destruct Hm as [s [Heq Hs]]. injection Heq as Hk Hd. rewrite <- Hk. simpl.
+  apply in_flat_map. exists (name, srcs, dst). split; [exact Hin | exact Hs].
+Qed.
+
+(** an event can fire only from a status that some entry lists as a source *)
+Lemma fire_src_listed evs cur ev d : fsm_fire evs cur ev = Some d -> In cur (srcs_of evs).
+Proof.
+  unfold fsm_fire, fsm_lookup. destruct (alookup_last fsm_key_eqb (ev, cur) (fsm_table evs)) as [x|] eqn:E; [|discriminate].
+  intros _. apply alookup_last_in in E. apply in_table_src in E. exact E.
+Qed.
+
+Lemma mem_s_in s l : mem_s s l = true <-> In s l.
+Proof.
+  unfold mem_s. rewrite existsb_exists. split.
+  - intros [x [Hx He]]. apply String.eqb_eq in He. subst. exact Hx.
+  - intro H. exists s. split; [exact H | apply String.eqb_refl].
+Qed.
+
+(** whatever lastStatus is, the sources of a table are the same list *)
+Lemma srcs_indep k last : srcs_of (table k last) = srcs_of (table k "").
+Proof. destruct k; reflexivity. Qed.
+
+(** [forbidden] is terminal for appchains, services, roles and nodes: no entry of the table, for any
+    lastStatus, leaves it *)
+Definition terminal_kind (k : okind) : bool := match k with KRule => false | _ => true end.
+
+Lemma forbidden_not_source k : terminal_kind k = true -> mem_s St_Forbidden (srcs_of (table k "")) = false.
+Proof. destruct k; intro H; try discriminate H; vm_compute; reflexivity. Qed.
+
+Lemma forbidden_terminal k last ev : terminal_kind k = true -> fire k last St_Forbidden ev = None.
+Proof.
+  intro Hk. unfold fire. destruct (fsm_fire (table k last) St_Forbidden ev) as [d|] eqn:E; [|reflexivity].
+  apply fire_src_listed in E. rewrite srcs_indep in E. apply mem_s_in in E.
+  rewrite (forbidden_not_source k Hk) in E. discriminate E.
+Qed.
+
+(** a rule leaves [forbidden] only through the appchain's clear, to [unavailable] *)
+Lemma in_edge_row (a ev d s e : string) (o : option string) :
+  In (a, ev, d) (match o with Some dst => [(s, e, dst)] | None => [] end) -> a = s /\ ev = e /\ o = Some d.
+Proof.
+  destruct o as [x|]; simpl; [|tauto]. intros [H|[]]. inversion H; subst. tauto.
+Qed.
+
+Lemma rule_forbidden_exit last ev d : fire KRule last St_Forbidden ev = Some d -> ev = Ev_CLear /\ d = St_Unavailable.
+Proof.
+  unfold fire. intro H. apply fsm_fire_in_edges in H.
+  unfold fsm_edges in H. apply in_flat_map in H. destruct H as [[[e s] x] [Hin Hm]].
+  apply in_edge_row in Hm. destruct Hm as [Hs [He Hf]]. subst s e.
+  cbn in Hin.
+  repeat match goal with
+         | H : _ \/ _ |- _ => destruct H
+         | H : False |- _ => contradiction
+         | H : (_, _, _) = (_, _, _) |- _ => inversion H; clear H
+         end; subst; try discriminate.
+  cbv in Hf. inversion Hf. split; reflexivity.
+Qed.
+
+(** the available sets: exactly available and freezing for appchains, services and roles; every
+    available service status can be paused, pausing leads to [pause], which is not available *)
+Lemma available_sets :
+  appchain_available = [St_Available; St_Freezing] /\ service_available = [St_Available; St_Freezing] /\ role_available = [St_Available; St_Freezing].
+Proof. repeat split; reflexivity. Qed.
+
+Lemma pause_covers_available :
+  forallb (fun s => pre_ok KSvc Ev_Pause s && option_eqb String.eqb (fire KSvc "" s Ev_Pause) (Some St_Pause)) service_available = true.
+Proof. vm_compute. reflexivity. Qed.
+
+Lemma pause_not_available : mem_s St_Pause service_available = false /\ mem_s St_Forbidden service_available = false.
+Proof. split; vm_compute; reflexivity. Qed.
+
+Lemma pre_ok_in k ev s : pre_ok k ev s = true -> exists l, alookup String.eqb ev (pre_map k) = Some l /\ In s l.
+Proof.
+  unfold pre_ok. destruct (alookup String.eqb ev (pre_map k)) as [l|]; [|discriminate].
+  intro H. exists l. split; [reflexivity | apply mem_s_in; exact H].
+Qed.
+
+(** every status the pre-check map lets be paused goes to [pause] (for any lastStatus: the pause entry does not mention it) *)
+Lemma pause_fires last s : pre_ok KSvc Ev_Pause s = true -> fire KSvc last s Ev_Pause = Some St_Pause.
+Proof.
+  intro H. apply pre_ok_in in H. destruct H as [l [Hl Hin]]. vm_compute in Hl. inversion Hl; subst l. simpl in Hin.
+  repeat match goal with H : _ \/ _ |- _ => destruct H | H : False |- _ => contradiction end; subst; reflexivity.
+Qed.
+
+(** clear sends pause and logouting to forbidden *)
+Lemma clear_fires last s : pre_ok KSvc Ev_CLear s = true -> fire KSvc last s Ev_CLear = Some St_Forbidden.
+Proof.
+  intro H. apply pre_ok_in in H. destruct H as [l [Hl Hin]]. vm_compute in Hl. inversion Hl; subst l. simpl in Hin.
+  repeat match goal with H : _ \/ _ |- _ => destruct H | H : False |- _ => contradiction end; subst; reflexivity.
+Qed.
+
+(** the closure of the status graph: from [forbidden] only [forbidden] is reachable (appchain, service, role, node) *)
+Lemma reach_forbidden_closed :
+  forallb (fun k => forallb (fun b => negb (reach k St_Forbidden b) || String.eqb b St_Forbidden) ("" :: status_universe))
+          [KChain; KSvc; KRole; KNode] = true.
+Proof. vm_compute. reflexivity. Qed.
+
+(** every edge of every table (for every lastStatus among the status constants) is in the closure that
+    the judge uses: the closure is at least as large as the declared machine *)
+Lemma reach_contains_edges :
+  forallb (fun k => forallb (fun e : string * string => reach k (fst e) (snd e)) (kind_edges k ++ extra_edges k)) [KChain; KSvc; KRule; KRole; KNode] = true.
+Proof. vm_compute. reflexivity. Qed.
+
+(** * Part 2: the interpreter *)
+
+(** ** association lists *)
+Lemma aremove_other {V} (j i : N) (m : list (N * V)) : (j =? i)%N = false -> alookup N.eqb j (aremove N.eqb i m) = alookup N.eqb j m.
+Proof.
+  intro H. induction m as [|[k v] t IH]; [reflexivity|]. simpl.
+  destruct (i =? k)%N eqn:E.
+  - apply N.eqb_eq in E. subst k. rewrite H. exact IH.
+  - simpl. destruct (j =? k)%N; [reflexivity | exact IH].
+Qed.
+
+Lemma nget_nset_same {V} (i : N) (v : V) m : nget i (nset i v m) = Some v.
+Proof. unfold nget, nset, aset. simpl. rewrite N.eqb_refl. reflexivity. Qed.
+
+Lemma nget_nset_other {V} (j i : N) (v : V) m : (j =? i)%N = false -> nget j (nset i v m) = nget j m.
+Proof. intro H. unfold nget, nset, aset. simpl. rewrite H. apply aremove_other. exact H. Qed.
+
+Lemma sget_sset_same i r m : sget i (sset i r m) = Some r.
+Proof. apply nget_nset_same. Qed.
+Lemma sget_sset_other j i r m : (j =? i)%N = false -> sget j (sset i r m) = sget j m.
+Proof. apply nget_nset_other. Qed.
+
+(** ** a relation closed under the primitive state changes is closed under [run] *)
+Section RunRel.
+  Variable R : state -> state -> Prop.
+  Hypothesis R_refl : forall s, R s s.
+  Hypothesis R_trans : forall a b c, R a b -> R b c -> R a c.
+  Hypothesis R_fire_chain : forall s c a ev last b cause,
+      nget c (chains s) = Some a -> fire KChain last a ev = Some b ->
+      R s (add_log (mk_log KChain c c a ev last b cause) (upd_chains (nset c b) s)).
+  Hypothesis R_fire_role : forall s r a ev last b cause,
+      nget r (roles s) = Some a -> fire KRole last a ev = Some b ->
+      R s (add_log (mk_log KRole r 0 a ev last b cause) (upd_roles (nset r b) s)).
+  Hypothesis R_rules : forall s c l' e, l_kind e = KRule -> R s (add_log e (upd_rules (nset c l') s)).
+  Hypothesis R_rules_nolog : forall s c l', R s (upd_rules (nset c l') s).
+  Hypothesis R_new_chain : forall s c,
+      nget c (chains s) = None ->
+      R s (add_log (mk_log KChain c c "" Ev_Register "" St_Available CAUSE_CONCL) (upd_chains (nset c St_Available) s)).
+  Hypothesis R_new_role : forall s r,
+      nget r (roles s) = None -> R s (add_log (mk_log KRole r 0 "" "" "" St_Unavailable CAUSE_OP) (upd_roles (nset r St_Unavailable) s)).
+  Hypothesis R_occ : forall s f, R s (upd_occ f s).
+  Hypothesis R_gov : forall s f, R s (upd_props f s).
+  Hypothesis R_post : forall s i r, sget i (svcs s) = Some r -> R s (upd_evs (fun e => (e ++ [(i, r)])%list) s).
+  Hypothesis R_sfire : forall s i r ev last b cause,
+      sget i (svcs s) = Some r -> fire KSvc last (sv_status r) ev = Some b ->
+      R s (add_log (mk_log KSvc i (sv_chain r) (sv_status r) ev last b cause)
+             (upd_svcs (sset i {| sv_chain := sv_chain r; sv_status := b; sv_black := sv_black r; sv_reg := sv_reg r |}) s)).
+  Hypothesis R_snew : forall s i r,
+      (match sget i (svcs s) with Some o => sv_status o | None => St_Unavailable end) = St_Unavailable ->
+      R s (add_log (mk_log KSvc i (sv_chain r) St_Unavailable Ev_Register St_Unavailable St_Registing CAUSE_OP)
+             (upd_svcs (sset i {| sv_chain := sv_chain r; sv_status := St_Registing; sv_black := sv_black r; sv_reg := false |}) s)).
+  Hypothesis R_sblack : forall s i r b,
+      sget i (svcs s) = Some r ->
+      R s (upd_svcs (sset i {| sv_chain := sv_chain r; sv_status := sv_status r; sv_black := b; sv_reg := sv_reg r |}) s).
+  Hypothesis R_sreg : forall s i r,
+      sget i (svcs s) = Some r ->
+      R s (upd_svcs (sset i {| sv_chain := sv_chain r; sv_status := sv_status r; sv_black := sv_black r; sv_reg := true |}) s).
+  Hypothesis R_regl : forall s f, R s (upd_regl f s).
+
+  Lemma run_rel : forall p cur s, R s (snd (run p cur s)).
+  Proof.
+    induction p; intros cur s; simpl; try (apply R_refl); try (apply H).
+    - (* FireChain *)
+      destruct (nget c (chains s)) as [a|] eqn:E; [|apply R_refl].
+      destruct (fire KChain last a ev) as [b|] eqn:F; [|apply R_refl].
+      eapply R_trans; [apply (R_fire_chain s c a ev last b cause E F) | apply IHp].
+    - (* FireRole *)
+      destruct (nget r (roles s)) as [a|] eqn:E; [|apply R_refl].
+      destruct (fire KRole last a ev) as [b|] eqn:F; [|apply R_refl].
+      eapply R_trans; [apply (R_fire_role s r a ev last b cause E F) | apply IHp].
+    - (* FireRule *)
+      destruct (nget c (rules s)) as [l|]; [|apply R_refl].
+      destruct (negb (existsb (fun x : rule => (ru_id x =? r)%N) l)); [apply R_refl|].
+      destruct (map_rule r _ l) as [l'|]; [|apply R_refl].
+      eapply R_trans; [|apply IHp]. apply R_rules. reflexivity.
+    - (* NewChain *)
+      destruct (nget c (chains s)) eqn:E; [apply R_refl|].
+      eapply R_trans; [apply (R_new_chain s c E) | apply IHp].
+    - (* NewRules *) eapply R_trans; [apply R_rules_nolog | apply IHp].
+    - (* AddRule *) eapply R_trans; [apply R_rules_nolog | apply IHp].
+    - (* NewRole *)
+      destruct (nget r (roles s)) as [a|] eqn:E.
+      + destruct (String.eqb a St_Unavailable); [apply IHp | apply R_refl].
+      + eapply R_trans; [apply (R_new_role s r E) | apply IHp].
+    - (* SetOcc *) eapply R_trans; [apply R_occ | apply IHp].
+    - (* Gov *) eapply R_trans; [apply R_gov | apply IHp].
+    - (* Scope *)
+      destruct (match cur with Some j => negb (j =? i)%N | None => false end); [apply R_refl|].
+      pose proof (IHp1 (Some i) s) as H1. destruct (run p1 (Some i) s) as [ok s1]. simpl in H1.
+      destruct ok; [|exact H1].
+      unfold post. destruct (sget i (svcs s1)) as [r|] eqn:E; [|exact H1].
+      eapply R_trans; [exact H1|]. eapply R_trans; [apply (R_post s1 i r E) | apply IHp2].
+    - (* SFire *)
+      destruct cur as [i|]; [|apply R_refl].
+      destruct (sget i (svcs s)) as [r|] eqn:E; [|apply R_refl].
+      destruct (fire KSvc last (sv_status r) ev) as [b|] eqn:F; [|apply R_refl].
+      eapply R_trans; [apply (R_sfire s i r ev last b cause E F) | apply IHp].
+    - (* SNew *)
+      destruct cur as [i|]; [|apply R_refl].
+      destruct (String.eqb (match sget i (svcs s) with Some o => sv_status o | None => St_Unavailable end) St_Unavailable) eqn:E; simpl; [|apply R_refl].
+      apply String.eqb_eq in E. rewrite E.
+      eapply R_trans; [apply (R_snew s i r E) | apply IHp].
+    - (* SBlack *)
+      destruct cur as [i|]; [|apply R_refl].
+      destruct (sget i (svcs s)) as [r|] eqn:E; [|apply R_refl].
+      eapply R_trans; [apply (R_sblack s i r b E) | apply IHp].
+    - (* SReg *)
+      destruct cur as [i|]; [|apply R_refl].
+      destruct (sget i (svcs s)) as [r|] eqn:E; [|apply R_refl].
+      destruct (memN i (reg_of (sv_chain r) s)).
+      + eapply R_trans; [apply (R_sreg s i r E) | apply IHp].
+      + eapply R_trans; [apply (R_sreg s i r E) |]. eapply R_trans; [apply R_regl | apply IHp].
+  Qed.
+End RunRel.
+
+Ltac ssimpl := cbn [chains occ svcs regl rules roles props cache evs slog upd_chains upd_occ upd_svcs upd_regl upd_rules upd_roles
+                    upd_props set_cache upd_evs add_log clear_tx l_kind l_id l_chain l_from l_ev l_last l_to l_cause mk_log
+                    sv_chain sv_status sv_black sv_reg fst snd] in *.
+
+(** ** instance 1: [run] does not touch the executor cache *)
+Lemma run_cache p cur s : cache (snd (run p cur s)) = cache s.
+Proof.
+  apply (run_rel (fun a b => cache b = cache a)); intros; try reflexivity.
+  congruence.
+Qed.
+
+(** ** instance 2: logged-out appchains, services and roles stay logged out *)
+Definition forb_rel (s s' : state) : Prop :=
+  (forall c, nget c (chains s) = Some St_Forbidden -> nget c (chains s') = Some St_Forbidden) /\
+  (forall i r, sget i (svcs s) = Some r -> sv_status r = St_Forbidden -> exists r', sget i (svcs s') = Some r' /\ sv_status r' = St_Forbidden) /\
+  (forall x, nget x (roles s) = Some St_Forbidden -> nget x (roles s') = Some St_Forbidden).
+
+Lemma forb_rel_refl s : forb_rel s s.
+Proof. repeat split; auto. intros i r H1 H2. exists r. auto. Qed.
+
+Lemma forb_rel_trans a b c : forb_rel a b -> forb_rel b c -> forb_rel a c.
+Proof.
+  intros [A1 [A2 A3]] [B1 [B2 B3]]. repeat split; auto.
+  intros i r H1 H2. destruct (A2 i r H1 H2) as [r' [H3 H4]]. apply (B2 i r' H3 H4).
+Qed.
+
+Lemma eqb_cases (j i : N) : (j =? i)%N = true \/ (j =? i)%N = false.
+Proof. destruct (j =? i)%N; auto. Qed.
+
+(** a service-record update that keeps, or does not start from, the forbidden status *)
+Lemma forb_svc_update s i r r' :
+  sget i (svcs s) = Some r -> (sv_status r = St_Forbidden -> sv_status r' = St_Forbidden) ->
+  forall f, (forall t, svcs (f t) = svcs t /\ chains (f t) = chains t /\ roles (f t) = roles t) ->
+  forb_rel s (f (upd_svcs (sset i r') s)).
+Proof.
+  intros E Hst f Hf. destruct (Hf (upd_svcs (sset i r') s)) as [F1 [F2 F3]].
+  repeat split.
+  - intros c H. rewrite F2. exact H.
+  - intros j x H1 H2. rewrite F1. change (svcs (upd_svcs (sset i r') s)) with (sset i r' (svcs s)).
+    destruct (eqb_cases j i) as [Hj|Hj].
+    + apply N.eqb_eq in Hj. subst j. rewrite E in H1. inversion H1; subst x.
+      exists r'. split; [apply sget_sset_same | apply Hst; exact H2].
+    + exists x. split; [rewrite sget_sset_other; assumption | exact H2].
+  - intros x H. rewrite F3. exact H.
+Qed.
+
+Lemma run_forbidden p cur s : forb_rel s (snd (run p cur s)).
+Proof.
+  apply run_rel.
+  - apply forb_rel_refl.
+  - apply forb_rel_trans.
+  - (* fire chain *) intros s0 c a ev last b cause E F. repeat split; ssimpl; auto.
+    + intros c' H. destruct (eqb_cases c' c) as [Hc|Hc].
+      * apply N.eqb_eq in Hc. subst c'. rewrite E in H. inversion H; subst a.
+        rewrite (forbidden_terminal KChain last ev eq_refl) in F. discriminate F.
+      * rewrite nget_nset_other; assumption.
+    + intros i r H1 H2. exists r. auto.
+  - (* fire role *) intros s0 r a ev last b cause E F. repeat split; ssimpl; auto.
+    + intros i x H1 H2. exists x. auto.
+    + intros x H. destruct (eqb_cases x r) as [Hc|Hc].
+      * apply N.eqb_eq in Hc. subst x. rewrite E in H. inversion H; subst a.
+        rewrite (forbidden_terminal KRole last ev eq_refl) in F. discriminate F.
+      * rewrite nget_nset_other; assumption.
+  - intros. repeat split; ssimpl; auto. intros i r H1 H2. exists r. auto.
+  - intros. repeat split; ssimpl; auto. intros i r H1 H2. exists r. auto.
+  - (* new chain *) intros s0 c E. repeat split; ssimpl; auto.
+    + intros c' H. destruct (eqb_cases c' c) as [Hc|Hc].
+      * apply N.eqb_eq in Hc. subst c'. rewrite E in H. discriminate H.
+      * rewrite nget_nset_other; assumption.
+    + intros i r H1 H2. exists r. auto.
+  - (* new role *) intros s0 r E. repeat split; ssimpl; auto.
+    + intros i x H1 H2. exists x. auto.
+    + intros x H. destruct (eqb_cases x r) as [Hc|Hc].
+      * apply N.eqb_eq in Hc. subst x. rewrite E in H. discriminate H.
+      * rewrite nget_nset_other; assumption.
+  - intros. repeat split; ssimpl; auto. intros i r H1 H2. exists r. auto.
+  - intros. repeat split; ssimpl; auto. intros i r H1 H2. exists r. auto.
+  - intros. repeat split; ssimpl; auto. intros j x H1 H2. exists x. auto.
+  - (* sfire *) intros s0 i r ev last b cause E F.
+    apply (forb_svc_update s0 i r _ E); [|intro t; ssimpl; auto].
+    ssimpl. intro H. rewrite H in F. rewrite (forbidden_terminal KSvc last ev eq_refl) in F. discriminate F.
+  - (* snew *) intros s0 i r E.
+    destruct (sget i (svcs s0)) as [o|] eqn:G.
+    + apply (forb_svc_update s0 i o _ G); [|intro t; ssimpl; auto].
+      intro H. rewrite H in E. discriminate E.
+    + repeat split; ssimpl; auto.
+      intros j x H1 H2. destruct (eqb_cases j i) as [Hj|Hj].
+      * apply N.eqb_eq in Hj. subst j. rewrite G in H1. discriminate H1.
+      * exists x. split; [rewrite sget_sset_other; assumption | exact H2].
+  - (* sblack *) intros s0 i r b E. eapply (forb_svc_update s0 i r _ E) with (f := fun t => t); [ssimpl; auto | auto].
+  - (* sreg *) intros s0 i r E. eapply (forb_svc_update s0 i r _ E) with (f := fun t => t); [ssimpl; auto | auto].
+  - intros. repeat split; ssimpl; auto. intros i r H1 H2. exists r. auto.
+Qed.
+
+(** ** instance 3: every status change is logged, and every logged change is a firing of the generated table *)
+Definition entry_ok (e : lentry) : Prop :=
+  l_kind e = KRule \/ l_from e = "" \/ fire (l_kind e) (l_last e) (l_from e) (l_ev e) = Some (l_to e).
+
+Definition chain_logged (ext : list lentry) (s s' : state) : Prop :=
+  forall c, nget c (chains s') = nget c (chains s) \/ exists e, In e ext /\ l_kind e = KChain /\ l_id e = c.
+Definition svc_logged (ext : list lentry) (s s' : state) : Prop :=
+  forall i, option_map sv_status (sget i (svcs s')) = option_map sv_status (sget i (svcs s)) \/ exists e, In e ext /\ l_kind e = KSvc /\ l_id e = i.
+Definition role_logged (ext : list lentry) (s s' : state) : Prop :=
+  forall x, nget x (roles s') = nget x (roles s) \/ exists e, In e ext /\ l_kind e = KRole /\ l_id e = x.
+
+Definition log_rel (s s' : state) : Prop :=
+  exists ext, slog s' = (slog s ++ ext)%list /\ Forall entry_ok ext /\ chain_logged ext s s' /\ svc_logged ext s s' /\ role_logged ext s s'.
+
+Lemma log_rel_refl s : log_rel s s.
+Proof. exists []. rewrite app_nil_r. repeat split; auto; intro; left; reflexivity. Qed.
+
+Lemma log_rel_trans a b c : log_rel a b -> log_rel b c -> log_rel a c.
+Proof.
+  intros [e1 [L1 [F1 [C1 [S1 X1]]]]] [e2 [L2 [F2 [C2 [S2 X2]]]]].
+  exists (e1 ++ e2)%list. split; [rewrite L2, L1, app_assoc; reflexivity|].
+  split; [apply Forall_app; auto|].
+  split; [|split].
+  - intro x. destruct (C2 x) as [H2|[e [Hi He]]]; [|right; exists e; split; [apply in_or_app; auto|exact He]].
+    destruct (C1 x) as [H1|[e [Hi He]]]; [left; congruence | right; exists e; split; [apply in_or_app; auto|exact He]].
+  - intro x. destruct (S2 x) as [H2|[e [Hi He]]]; [|right; exists e; split; [apply in_or_app; auto|exact He]].
+    destruct (S1 x) as [H1|[e [Hi He]]]; [left; congruence | right; exists e; split; [apply in_or_app; auto|exact He]].
+  - intro x. destruct (X2 x) as [H2|[e [Hi He]]]; [|right; exists e; split; [apply in_or_app; auto|exact He]].
+    destruct (X1 x) as [H1|[e [Hi He]]]; [left; congruence | right; exists e; split; [apply in_or_app; auto|exact He]].
+Qed.
+
+(** a step that logs nothing and leaves every status alone *)
+Lemma log_rel_silent s s' :
+  slog s' = slog s -> chains s' = chains s -> roles s' = roles s ->
+  (forall i, option_map sv_status (sget i (svcs s')) = option_map sv_status (sget i (svcs s))) -> log_rel s s'.
+Proof.
+  intros L C X S. exists []. rewrite app_nil_r. repeat split; auto.
+  - intro c. left. rewrite C. reflexivity.
+  - intro i. left. apply S.
+  - intro x. left. rewrite X. reflexivity.
+Qed.
+
+(** a step that logs one entry about object (k, id) and changes the status of nothing else *)
+Lemma log_rel_one s s' e :
+  slog s' = (slog s ++ [e])%list -> entry_ok e ->
+  (forall c, (l_kind e = KChain /\ l_id e = c) \/ nget c (chains s') = nget c (chains s)) ->
+  (forall i, (l_kind e = KSvc /\ l_id e = i) \/ option_map sv_status (sget i (svcs s')) = option_map sv_status (sget i (svcs s))) ->
+  (forall x, (l_kind e = KRole /\ l_id e = x) \/ nget x (roles s') = nget x (roles s)) ->
+  log_rel s s'.
+Proof.
+  intros L Ok C S X. exists [e]. split; [exact L|]. split; [constructor; [exact Ok|constructor]|].
+  split; [|split].
+  - intro c. destruct (C c) as [[H1 H2]|H]; [right; exists e; split; [left; reflexivity | auto] | left; exact H].
+  - intro i. destruct (S i) as [[H1 H2]|H]; [right; exists e; split; [left; reflexivity | auto] | left; exact H].
+  - intro x. destruct (X x) as [[H1 H2]|H]; [right; exists e; split; [left; reflexivity | auto] | left; exact H].
+Qed.
+
+Lemma sstatus_other j i r m : (j =? i)%N = false -> option_map sv_status (sget j (sset i r m)) = option_map sv_status (sget j m).
+Proof. intro H. rewrite sget_sset_other; auto. Qed.
+
+Lemma run_logged p cur s : log_rel s (snd (run p cur s)).
+Proof.
+  apply run_rel.
+  - apply log_rel_refl.
+  - apply log_rel_trans.
+  - (* fire chain *) intros s0 c a ev last b cause E F.
+    apply (log_rel_one _ _ (mk_log KChain c c a ev last b cause)).
+    + reflexivity.
+    + right. right. exact F.
+    + intro c'. ssimpl. destruct (eqb_cases c' c) as [H|H]; [left; apply N.eqb_eq in H; auto | right; apply nget_nset_other; exact H].
+    + intro. right. reflexivity.
+    + intro. right. reflexivity.
+  - (* fire role *) intros s0 r a ev last b cause E F.
+    apply (log_rel_one _ _ (mk_log KRole r 0 a ev last b cause)).
+    + reflexivity.
+    + right. right. exact F.
+    + intro. right. reflexivity.
+    + intro. right. reflexivity.
+    + intro x. ssimpl. destruct (eqb_cases x r) as [H|H]; [left; apply N.eqb_eq in H; auto | right; apply nget_nset_other; exact H].
+  - (* rules, logged *) intros s0 c l' e Hk. apply (log_rel_one _ _ e).
+    + reflexivity.
+    + left. exact Hk.
+    + intro. right. reflexivity.
+    + intro. right. reflexivity.
+    + intro. right. reflexivity.
+  - intros. apply log_rel_silent; reflexivity.
+  - (* new chain *) intros s0 c E.
+    apply (log_rel_one _ _ (mk_log KChain c c "" Ev_Register "" St_Available CAUSE_CONCL)).
+    + reflexivity.
+    + right. left. reflexivity.
+    + intro c'. ssimpl. destruct (eqb_cases c' c) as [H|H]; [left; apply N.eqb_eq in H; auto | right; apply nget_nset_other; exact H].
+    + intro. right. reflexivity.
+    + intro. right. reflexivity.
+  - (* new role *) intros s0 r E.
+    apply (log_rel_one _ _ (mk_log KRole r 0 "" "" "" St_Unavailable CAUSE_OP)).
+    + reflexivity.
+    + right. left. reflexivity.
+    + intro. right. reflexivity.
+    + intro. right. reflexivity.
+    + intro x. ssimpl. destruct (eqb_cases x r) as [H|H]; [left; apply N.eqb_eq in H; auto | right; apply nget_nset_other; exact H].
+  - intros. apply log_rel_silent; reflexivity.
+  - intros. apply log_rel_silent; reflexivity.
+  - intros. apply log_rel_silent; reflexivity.
+  - (* sfire *) intros s0 i r ev last b cause E F.
+    apply (log_rel_one _ _ (mk_log KSvc i (sv_chain r) (sv_status r) ev last b cause)).
+    + reflexivity.
+    + right. right. exact F.
+    + intro. right. reflexivity.
+    + intro j. ssimpl. destruct (eqb_cases j i) as [H|H]; [left; apply N.eqb_eq in H; auto | right; apply sstatus_other; exact H].
+    + intro. right. reflexivity.
+  - (* snew *) intros s0 i r E.
+    apply (log_rel_one _ _ (mk_log KSvc i (sv_chain r) St_Unavailable Ev_Register St_Unavailable St_Registing CAUSE_OP)).
+    + reflexivity.
+    + right. right. vm_compute. reflexivity.
+    + intro. right. reflexivity.
+    + intro j. ssimpl. destruct (eqb_cases j i) as [H|H]; [left; apply N.eqb_eq in H; auto | right; apply sstatus_other; exact H].
+    + intro. right. reflexivity.
+  - (* sblack *) intros s0 i r b E. apply log_rel_silent; try reflexivity.
+    intro j. ssimpl. destruct (eqb_cases j i) as [H|H].
+    + apply N.eqb_eq in H. subst j. rewrite sget_sset_same, E. reflexivity.
+    + apply sstatus_other. exact H.
+  - (* sreg *) intros s0 i r E. apply log_rel_silent; try reflexivity.
+    intro j. ssimpl. destruct (eqb_cases j i) as [H|H].
+    + apply N.eqb_eq in H. subst j. rewrite sget_sset_same, E. reflexivity.
+    + apply sstatus_other. exact H.
+  - intros. apply log_rel_silent; reflexivity.
+Qed.
+
+(** ** service records and the events that follow them
+    [synced s0 s i]: the last Event_SERVICE event posted for service i by the running transaction carries
+    the record as it is now; if none was posted the record is the one the transaction started with. *)
+Definition last_ev (i : N) (E : list (N * svc)) : option svc := alookup_last N.eqb i E.
+
+Lemma last_ev_app_same E i r : last_ev i (E ++ [(i, r)]) = Some r.
+Proof.
+  unfold last_ev. induction E as [|[k v] t IH]; simpl.
+  - rewrite N.eqb_refl. reflexivity.
+  - rewrite IH. reflexivity.
+Qed.
+
+Lemma last_ev_app_other E j i r : (j =? i)%N = false -> last_ev j (E ++ [(i, r)]) = last_ev j E.
+Proof.
+  intro H. unfold last_ev. induction E as [|[k v] t IH]; simpl.
+  - rewrite H. reflexivity.
+  - rewrite IH. reflexivity.
+Qed.
+
+Definition synced (s0 s : state) (i : N) : Prop :=
+  match last_ev i (evs s) with
+  | Some r => sget i (svcs s) = Some r
+  | None => sget i (svcs s) = sget i (svcs s0)
+  end.
+Definition sync_inv (s0 : state) (cur : option N) (s : state) : Prop := forall i, cur <> Some i -> synced s0 s i.
+
+Lemma sync_frame s0 cur s s' : svcs s' = svcs s -> evs s' = evs s -> sync_inv s0 cur s -> sync_inv s0 cur s'.
+Proof. intros A B H i Hi. unfold synced. rewrite A, B. apply H. exact Hi. Qed.
+
+(** a change of the record of the service in scope leaves the others as they are *)
+Lemma sync_scoped s0 i s r' f :
+  (forall t, svcs (f t) = svcs t /\ evs (f t) = evs t) ->
+  sync_inv s0 (Some i) s -> sync_inv s0 (Some i) (f (upd_svcs (sset i r') s)).
+Proof.
+  intros Hf H j Hj. unfold synced. destruct (Hf (upd_svcs (sset i r') s)) as [A B]. rewrite A, B.
+  change (svcs (upd_svcs (sset i r') s)) with (sset i r' (svcs s)).
+  change (evs (upd_svcs (sset i r') s)) with (evs s).
+  assert ((j =? i)%N = false) as Hji.
+  { destruct (j =? i)%N eqn:E; [|reflexivity]. apply N.eqb_eq in E. subst j. exfalso. apply Hj. reflexivity. }
+  rewrite (sget_sset_other j i r' (svcs s) Hji). apply H. exact Hj.
+Qed.
+
+Lemma run_sync s0 : forall p cur s, sync_inv s0 cur s -> fst (run p cur s) = true -> sync_inv s0 cur (snd (run p cur s)).
+Proof.
+  induction p; intros cur s Hinv Hok; simpl in *; try exact Hinv; try discriminate Hok; try (apply H; assumption).
+  - (* FireChain *)
+    destruct (nget c (chains s)) as [a|]; [|discriminate Hok].
+    destruct (fire KChain last a ev) as [b|]; [|discriminate Hok].
+    apply IHp; [|exact Hok]. eapply sync_frame; [| |exact Hinv]; reflexivity.
+  - (* FireRole *)
+    destruct (nget r (roles s)) as [a|]; [|discriminate Hok].
+    destruct (fire KRole last a ev) as [b|]; [|discriminate Hok].
+    apply IHp; [|exact Hok]. eapply sync_frame; [| |exact Hinv]; reflexivity.
+  - (* FireRule *)
+    destruct (nget c (rules s)) as [l|]; [|discriminate Hok].
+    destruct (negb (existsb (fun x : rule => (ru_id x =? r)%N) l)); [discriminate Hok|].
+    destruct (map_rule r _ l) as [l'|]; [|discriminate Hok].
+    apply IHp; [|exact Hok]. eapply sync_frame; [| |exact Hinv]; reflexivity.
+  - (* NewChain *)
+    destruct (nget c (chains s)); [discriminate Hok|].
+    apply IHp; [|exact Hok]. eapply sync_frame; [| |exact Hinv]; reflexivity.
+  - apply IHp; [|exact Hok]. eapply sync_frame; [| |exact Hinv]; reflexivity.
+  - apply IHp; [|exact Hok]. eapply sync_frame; [| |exact Hinv]; reflexivity.
+  - (* NewRole *)
+    destruct (nget r (roles s)) as [a|].
+    + destruct (String.eqb a St_Unavailable); [apply IHp; assumption | discriminate Hok].
+    + apply IHp; [|exact Hok]. eapply sync_frame; [| |exact Hinv]; reflexivity.
+  - apply IHp; [|exact Hok]. eapply sync_frame; [| |exact Hinv]; reflexivity.
+  - apply IHp; [|exact Hok]. eapply sync_frame; [| |exact Hinv]; reflexivity.
+  - (* Scope *)
+    destruct (match cur with Some j => negb (j =? i)%N | None => false end) eqn:Hc; [discriminate Hok|].
+    assert (Hin : sync_inv s0 (Some i) s).
+    { intros j Hj. apply Hinv. destruct cur as [c|]; [|discriminate].
+      apply negb_false_iff in Hc. apply N.eqb_eq in Hc. subst c. exact Hj. }
+    pose proof (IHp1 (Some i) s Hin) as H1.
+    destruct (run p1 (Some i) s) as [ok s1]. simpl in H1.
+    destruct ok; [|discriminate Hok]. specialize (H1 eq_refl).
+    unfold post in *. destruct (sget i (svcs s1)) as [r|] eqn:E; [|discriminate Hok].
+    apply IHp2; [|exact Hok].
+    (* after the post every service is in sync *)
+    intros j _. unfold synced.
+    change (evs (upd_evs (fun e : list (N * svc) => (e ++ [(i, r)])%list) s1)) with (evs s1 ++ [(i, r)])%list.
+    change (svcs (upd_evs (fun e : list (N * svc) => (e ++ [(i, r)])%list) s1)) with (svcs s1).
+    destruct (eqb_cases j i) as [Hj|Hj].
+    + apply N.eqb_eq in Hj. subst j. rewrite last_ev_app_same. exact E.
+    + rewrite (last_ev_app_other _ _ _ _ Hj). apply H1. intro Hx. inversion Hx; subst. rewrite N.eqb_refl in Hj. discriminate Hj.
+  - (* SFire *)
+    destruct cur as [i|]; [|discriminate Hok].
+    destruct (sget i (svcs s)) as [r|]; [|discriminate Hok].
+    destruct (fire KSvc last (sv_status r) ev) as [b|]; [|discriminate Hok].
+    apply IHp; [|exact Hok].
+    apply (sync_scoped s0 i s _ (add_log _)); [intro t; split; reflexivity | exact Hinv].
+  - (* SNew *)
+    destruct cur as [i|]; [|discriminate Hok].
+    destruct (negb _); [discriminate Hok|].
+    apply IHp; [|exact Hok].
+    apply (sync_scoped s0 i s _ (add_log _)); [intro t; split; reflexivity | exact Hinv].
+  - (* SBlack *)
+    destruct cur as [i|]; [|discriminate Hok].
+    destruct (sget i (svcs s)) as [r|]; [|discriminate Hok].
+    apply IHp; [|exact Hok].
+    apply (sync_scoped s0 i s _ (fun t => t)); [intro t; split; reflexivity | exact Hinv].
+  - (* SReg *)
+    destruct cur as [i|]; [|discriminate Hok].
+    destruct (sget i (svcs s)) as [r|]; [|discriminate Hok].
+    apply IHp; [|exact Hok].
+    destruct (memN i (reg_of (sv_chain r) s)).
+    + apply (sync_scoped s0 i s _ (fun t => t)); [intro t; split; reflexivity | exact Hinv].
+    + apply (sync_scoped s0 i s _ (upd_regl _)); [intro t; split; reflexivity | exact Hinv].
+Qed.
+
+Lemma apply_events_get E : forall c i,
+  sget i (apply_events E c) = match last_ev i E with Some r => Some r | None => sget i c end.
+Proof.
+  unfold apply_events, last_ev. induction E as [|[k v] t IH]; intros c i; simpl; [reflexivity|].
+  rewrite IH. destruct (alookup_last N.eqb i t) as [r|]; [reflexivity|].
+  destruct (eqb_cases i k) as [H|H]; rewrite H.
+  - apply N.eqb_eq in H. subst k. apply sget_sset_same.
+  - apply sget_sset_other. exact H.
+Qed.
+
+(** * Part 3: over all histories *)
+
+(** the cache never disagrees with the stored record (as long as events of failed transactions are not applied) *)
+Definition cache_ok (s : state) : Prop := forall i r, sget i (cache s) = Some r -> sget i (svcs s) = Some r.
+Definition committed (s : state) : Prop := evs s = [] /\ slog s = [].
+
+Lemma commit_keeps f s p :
+  d_cache_failed_events f = false -> cache_ok s -> committed s ->
+  let '(ok, w) := run p None s in
+  let s' := if ok then clear_tx (set_cache (apply_events (evs w) (cache w)) w)
+            else if d_cache_failed_events f then set_cache (apply_events (evs w) (cache s)) s else s in
+  cache_ok s' /\ committed s'.
+Proof.
+  intros Hf Hc [He Hl].
+  pose proof (run_sync s p None s) as HS. pose proof (run_cache p None s) as HC.
+  destruct (run p None s) as [ok w]. simpl in HS, HC.
+  destruct ok.
+  - split; [|split; reflexivity].
+    assert (Hinit : sync_inv s None s).
+    { intros i _. unfold synced. rewrite He. reflexivity. }
+    specialize (HS Hinit eq_refl).
+    intros i r. ssimpl. rewrite apply_events_get, HC.
+    specialize (HS i). unfold synced in HS.
+    destruct (last_ev i (evs w)) as [x|].
+    + intro H. inversion H; subst x. apply HS. discriminate.
+    + intro H. rewrite HS; [apply Hc; exact H | discriminate].
+  - rewrite Hf. split; [exact Hc | split; assumption].
+Qed.
+
+Lemma step_keeps f s o :
+  d_cache_failed_events f = false -> cache_ok s -> committed s ->
+  cache_ok (r_state (step f s o)) /\ committed (r_state (step f s o)).
+Proof.
+  intros Hf Hc Hm.
+  assert (Hrun : forall p,
+             cache_ok (r_state (let '(ok, w) := run p None s in
+                                if ok then {| r_ok := true; r_out := 9; r_log := slog w; r_state := clear_tx (set_cache (apply_events (evs w) (cache w)) w) |}
+                                else {| r_ok := false; r_out := 9; r_log := [];
+                                        r_state := if d_cache_failed_events f then set_cache (apply_events (evs w) (cache s)) s else s |})) /\
+             committed (r_state (let '(ok, w) := run p None s in
+                                if ok then {| r_ok := true; r_out := 9; r_log := slog w; r_state := clear_tx (set_cache (apply_events (evs w) (cache w)) w) |}
+                                else {| r_ok := false; r_out := 9; r_log := [];
+                                        r_state := if d_cache_failed_events f then set_cache (apply_events (evs w) (cache s)) s else s |}))).
+  { intro p. pose proof (commit_keeps f s p Hf Hc Hm) as H. destruct (run p None s) as [ok w]. destruct ok; exact H. }
+  destruct o; try (apply Hrun).
+  - (* request *) simpl. split; assumption.
+  - (* restart *) simpl. destruct Hm as [He Hl]. split; [|split; assumption].
+    destruct (d_cache_not_reloaded f); intros i r H; ssimpl; [discriminate H | exact H].
+Qed.
+
+Lemma run_ops_keeps f h : forall s,
+  d_cache_failed_events f = false -> cache_ok s -> committed s -> cache_ok (run_ops f s h) /\ committed (run_ops f s h).
+Proof.
+  induction h as [|o t IH]; intros s Hf Hc Hm; simpl; [split; assumption|].
+  destruct (step_keeps f s o Hf Hc Hm) as [A B]. apply IH; assumption.
+Qed.
+
+Lemma st0_ok : cache_ok st0 /\ committed st0.
+Proof. split; [intros i r H; discriminate H | split; reflexivity]. Qed.
+
+(** the gate decides on the stored records *)
+Lemma gate_ext v v' src dst : v src = v' src -> v dst = v' dst -> gate v src dst = gate v' src dst.
+Proof. intros A B. unfold gate, src_ok, dst_ok. rewrite A, B. reflexivity. Qed.
+
+Lemma view_ok s i : cache_ok s -> view (cache s) (svcs s) i = sget i (svcs s).
+Proof.
+  intro H. unfold view. destruct (sget i (cache s)) as [r|] eqn:E; [|reflexivity].
+  symmetry. apply H. exact E.
+Qed.
+
+Lemma gate_sound_gate ledger src dst : gate_sound ledger src dst (gate (fun i => sget i ledger) src dst) = true.
+Proof.
+  unfold gate, gate_sound.
+  destruct (src_ok (fun i : N => sget i ledger) src) eqn:A; cbn [negb]; [|reflexivity].
+  destruct (dst_ok (fun i : N => sget i ledger) src dst) eqn:B; reflexivity.
+Qed.
+
+Lemma gate_theorem f h src dst :
+  d_cache_failed_events f = false ->
+  let s := run_ops f st0 h in gate_sound (svcs s) src dst (ibtp_outcome s src dst) = true.
+Proof.
+  intros Hf s. destruct (run_ops_keeps f h st0 Hf (proj1 st0_ok) (proj2 st0_ok)) as [Hc _]. fold s in Hc.
+  unfold ibtp_outcome. destruct (negb (proof_ok s src)); [reflexivity|].
+  rewrite (gate_ext _ (fun i => sget i (svcs s)) src dst (view_ok s src Hc) (view_ok s dst Hc)).
+  apply gate_sound_gate.
+Qed.
+
+(** ** logged out forever *)
+Lemma forb_rel_tx s w c : forb_rel s w -> forb_rel s (clear_tx (set_cache c w)).
+Proof. intros [A [B C]]. repeat split; ssimpl; assumption. Qed.
+
+Lemma step_forbidden f s o : forb_rel s (r_state (step f s o)).
+Proof.
+  assert (Hrun : forall p,
+             forb_rel s (r_state (let '(ok, w) := run p None s in
+                                  if ok then {| r_ok := true; r_out := 9; r_log := slog w; r_state := clear_tx (set_cache (apply_events (evs w) (cache w)) w) |}
+                                  else {| r_ok := false; r_out := 9; r_log := [];
+                                          r_state := if d_cache_failed_events f then set_cache (apply_events (evs w) (cache s)) s else s |}))).
+  { intro p. pose proof (run_forbidden p None s) as H. destruct (run p None s) as [ok w]. simpl in H.
+    destruct ok; ssimpl.
+    - apply forb_rel_tx. exact H.
+    - destruct (d_cache_failed_events f); [|apply forb_rel_refl].
+      repeat split; ssimpl; auto. intros i r H1 H2. exists r. auto. }
+  destruct o; try (apply Hrun).
+  - simpl. apply forb_rel_refl.
+  - simpl. repeat split; ssimpl; auto. intros i r H1 H2. exists r. auto.
+Qed.
+
+Lemma run_ops_forbidden f h : forall s, forb_rel s (run_ops f s h).
+Proof.
+  induction h as [|o t IH]; intro s; simpl; [apply forb_rel_refl|].
+  eapply forb_rel_trans; [apply step_forbidden | apply IH].
+Qed.
+
+(** a logged-out service is never let through as a source (flags off) *)
+Lemma forbidden_source_refused f h src dst r :
+  d_cache_failed_events f = false ->
+  let s := run_ops f st0 h in
+  sget src (svcs s) = Some r -> sv_status r = St_Forbidden ->
+  ibtp_outcome s src dst = ORejSrc \/ ibtp_outcome s src dst = OProof.
+Proof.
+  intros Hf s Hr Hst. destruct (run_ops_keeps f h st0 Hf (proj1 st0_ok) (proj2 st0_ok)) as [Hc _]. fold s in Hc.
+  unfold ibtp_outcome. destruct (negb (proof_ok s src)); [right; reflexivity|]. left.
+  unfold gate, src_ok. rewrite (view_ok s src Hc), Hr. unfold svc_avail. rewrite Hst. reflexivity.
+Qed.
+
+(** ** every status change of a step is logged, every logged change is a firing of the generated table;
+    requests and restarts change no status *)
+Lemma step_logged f s o :
+  committed s ->
+  let r := step f s o in
+  Forall entry_ok (r_log r) /\ chain_logged (r_log r) s (r_state r) /\ svc_logged (r_log r) s (r_state r) /\ role_logged (r_log r) s (r_state r).
+Proof.
+  intros [He Hl].
+  assert (Hnone : forall s', chains s' = chains s -> svcs s' = svcs s -> roles s' = roles s ->
+                             Forall entry_ok [] /\ chain_logged [] s s' /\ svc_logged [] s s' /\ role_logged [] s s').
+  { intros s' A B C. split; [constructor|]. split; [|split]; intro x; left; rewrite ?A, ?B, ?C; reflexivity. }
+  assert (Hrun : forall p,
+             let r := (let '(ok, w) := run p None s in
+                       if ok then {| r_ok := true; r_out := 9; r_log := slog w; r_state := clear_tx (set_cache (apply_events (evs w) (cache w)) w) |}
+                       else {| r_ok := false; r_out := 9; r_log := [];
+                               r_state := if d_cache_failed_events f then set_cache (apply_events (evs w) (cache s)) s else s |}) in
+             Forall entry_ok (r_log r) /\ chain_logged (r_log r) s (r_state r) /\ svc_logged (r_log r) s (r_state r) /\ role_logged (r_log r) s (r_state r)).
+  { intro p. pose proof (run_logged p None s) as H. destruct (run p None s) as [ok w]. simpl in H.
+    destruct ok; ssimpl.
+    - destruct H as [ext [L [F [C [S X]]]]]. rewrite Hl in L. simpl in L. rewrite L.
+      split; [exact F|]. split; [|split]; intro x; ssimpl; [apply C | apply S | apply X].
+    - destruct (d_cache_failed_events f); apply Hnone; reflexivity. }
+  destruct o; try (apply Hrun).
+  - simpl. apply Hnone; reflexivity.
+  - simpl. apply Hnone; reflexivity.
+Qed.
+
+(** ** cascade: an approved freeze of an appchain pauses every registered service *)
+Definition unav (s : state) (i : N) : Prop :=
+  match sget i (svcs s) with Some r => svc_avail r = false | None => True end.
+
+Lemma not_pausable_unavailable st : pre_ok KSvc Ev_Pause st = false -> mem_s st service_available = false.
+Proof.
+  intro H. destruct (mem_s st service_available) eqn:E; [|reflexivity].
+  apply mem_s_in in E. pose proof pause_covers_available as A. rewrite forallb_forall in A.
+  specialize (A st E). apply andb_true_iff in A. destruct A as [A _]. rewrite A in H. discriminate H.
+Qed.
+
+Lemma run_pause_body i c s :
+  exists s1, run (pause_service i c Ret) (Some i) s = (true, s1) /\
+             chains s1 = chains s /\ regl s1 = regl s /\
+             svcs s1 = match sget i (svcs s) with
+                       | Some x => if pre_ok KSvc Ev_Pause (sv_status x)
+                                   then sset i {| sv_chain := sv_chain x; sv_status := St_Pause; sv_black := sv_black x; sv_reg := sv_reg x |} (svcs s)
+                                   else svcs s
+                       | None => svcs s
+                       end.
+Proof.
+  unfold pause_service, lock_svc. cbn [run].
+  destruct (sget i (svcs s)) as [x|] eqn:E.
+  - destruct (pre_ok KSvc Ev_Pause (sv_status x)) eqn:P.
+    + cbn [run]. rewrite E. rewrite (pause_fires "" _ P). cbn [run]. eexists. split; [reflexivity|]. repeat split; reflexivity.
+    + cbn [run]. eexists. split; [reflexivity|]. repeat split; reflexivity.
+  - cbn [run]. eexists. split; [reflexivity|]. repeat split; reflexivity.
+Qed.
+
+Lemma unav_after_pause i j s s1 :
+  svcs s1 = match sget i (svcs s) with
+            | Some x => if pre_ok KSvc Ev_Pause (sv_status x)
+                        then sset i {| sv_chain := sv_chain x; sv_status := St_Pause; sv_black := sv_black x; sv_reg := sv_reg x |} (svcs s)
+                        else svcs s
+            | None => svcs s
+            end ->
+  (j = i \/ unav s j) -> unav s1 j.
+Proof.
+  intros Hs Hj. unfold unav in *. rewrite Hs.
+  destruct (sget i (svcs s)) as [x|] eqn:E.
+  - destruct (pre_ok KSvc Ev_Pause (sv_status x)) eqn:P.
+    + destruct (eqb_cases j i) as [H|H].
+      * apply N.eqb_eq in H. subst j. rewrite sget_sset_same. unfold svc_avail. cbn [sv_status]. apply (proj1 pause_not_available).
+      * rewrite (sget_sset_other j i _ _ H). destruct Hj as [Hj|Hj]; [subst j; rewrite N.eqb_refl in H; discriminate H | exact Hj].
+    + destruct Hj as [Hj|Hj]; [|exact Hj]. subst j. rewrite E. unfold svc_avail. apply not_pausable_unavailable. exact P.
+  - destruct Hj as [Hj|Hj]; [subst j; rewrite E; exact I | exact Hj].
+Qed.
+
+Lemma each_pause_unav c : forall ids s s',
+  run (each_service ids (fun i => pause_service i c) Ret) None s = (true, s') ->
+  (forall i, In i ids -> unav s' i) /\ (forall i, unav s i -> unav s' i) /\ chains s' = chains s /\ regl s' = regl s.
+Proof.
+  induction ids as [|i t IH]; intros s s' H.
+  - simpl in H. inversion H; subst. repeat split; auto. intros i [].
+  - cbn [each_service run] in H.
+    destruct (run_pause_body i c s) as [s1 [R1 [C1 [G1 S1]]]]. rewrite R1 in H.
+    unfold post in H. destruct (sget i (svcs s1)) as [r|] eqn:E; [|discriminate H].
+    specialize (IH _ _ H). destruct IH as [A [B [C G]]].
+    assert (Hsv : forall j, (j = i \/ unav s j) -> unav (upd_evs (fun e : list (N * svc) => (e ++ [(i, r)])%list) s1) j).
+    { intros j Hj. unfold unav. change (svcs (upd_evs (fun e : list (N * svc) => (e ++ [(i, r)])%list) s1)) with (svcs s1).
+      apply (unav_after_pause i j s s1 S1 Hj). }
+    repeat split.
+    + intros j [Hj|Hj]; [subst j; apply B; apply Hsv; left; reflexivity | apply A; exact Hj].
+    + intros j Hj. apply B. apply Hsv. right. exact Hj.
+    + rewrite C. exact C1.
+    + rewrite G. exact G1.
+Qed.
+
+(** AppchainManager.Manage(freeze, approve): afterwards no registered service of the appchain is available,
+    whatever their statuses were *)
+Lemma cascade_freeze f last c s s' :
+  run (chain_manage f Ev_Freeze Ev_Approve last c Ret) None s = (true, s') ->
+  forall i, In i (reg_of c s) -> unav s' i.
+Proof.
+  unfold chain_manage. cbn [String.eqb Ev_Freeze Ev_Approve Ev_Register Ev_Update Ascii.eqb Bool.eqb].
+  change (String.eqb Ev_Freeze Ev_Register) with false. change (String.eqb Ev_Approve Ev_Approve) with true.
+  change (String.eqb Ev_Freeze Ev_Update) with false. change (String.eqb Ev_Freeze Ev_Freeze) with true.
+  cbn iota. cbn [run].
+  destruct (nget c (chains s)) as [a|]; [|discriminate].
+  destruct (fire KChain last a Ev_Approve) as [b|]; [|discriminate].
+  unfold pause_chain_services. cbn [run].
+  intros H i Hi. apply each_pause_unav in H. destruct H as [A _]. apply A.
+  unfold reg_of in *. exact Hi.
+Qed.
+
+(** the same at the level of a history step: concluding (approving) an appchain freeze proposal *)
+Lemma step_cascade_freeze f s k p pid :
+  nth_open false k (props s) = Some pid -> nth_error (props s) (N.to_nat pid) = Some p ->
+  p_kind p = KChain -> p_event p = Ev_Freeze ->
+  r_ok (step f s (OConclude k true)) = true ->
+  forall i, In i (reg_of (p_obj p) s) -> unav (r_state (step f s (OConclude k true))) i.
+Proof.
+  intros Hk Hp Kk Ke. unfold step, prog_of. cbn [run]. rewrite Hk. unfold conclude. cbn [run]. rewrite Hp.
+  destruct (negb _); [cbn [run]; intro H; discriminate H|].
+  cbn [run].
+  assert (Hm : forall s0, chains s0 = chains s -> svcs s0 = svcs s -> regl s0 = regl s ->
+                          forall ok w, run (manage f p Ev_Approve Ret) None s0 = (ok, w) -> ok = true ->
+                                       forall i, In i (reg_of (p_obj p) s) -> unav w i).
+  { intros s0 A B C ok w H Hok i Hi. subst ok. unfold manage in H. rewrite Kk, Ke in H.
+    apply (cascade_freeze f (p_last p) (p_obj p) s0 w H). unfold reg_of in *. rewrite C. exact Hi. }
+  destruct (p_lock p) as [l|].
+  - destruct (nth_error (props s) (N.to_nat l)) as [lp|]; [|cbn [run]; intro H; discriminate H].
+    cbn [run].
+    destruct (run (manage f p Ev_Approve Ret) None _) as [ok w] eqn:R.
+    destruct ok; cbn [r_ok r_state]; [|intro H; discriminate H].
+    intros _ i Hi. unfold unav. ssimpl. eapply Hm; [| | | exact R | reflexivity | exact Hi]; reflexivity.
+  - destruct (run (manage f p Ev_Approve Ret) None _) as [ok w] eqn:R.
+    destruct ok; cbn [r_ok r_state]; [|intro H; discriminate H].
+    intros _ i Hi. unfold unav. ssimpl. eapply Hm; [| | | exact R | reflexivity | exact Hi]; reflexivity.
+Qed.
+
+(** ** refutations on the faithful model (flags on) and non-vacuity *)
+Definition setup : list op :=
+  [ORegChain 1; OConclude 0 true; ORegChain 2; OConclude 0 true; ORegSvc 1 10 []; OConclude 0 true; ORegSvc 2 20 []; OConclude 0 true]%N.
+
+(** freeze approved, logout submitted, logout rejected: the appchain is frozen again, its service available, the request passes *)
+Definition h_logout_reject : list op := (setup ++ [OChainOp 1 1; OConclude 0 true; OChainOp 3 1; OConclude 0 false; OIbtp 10 20])%list.
+
+Lemma logout_reject_refuted :
+  P_b h_logout_reject (model_trace (cfg_of_bits false false true) h_logout_reject) = false.
+Proof. vm_compute. reflexivity. Qed.
+
+Lemma logout_reject_fixed : P_b h_logout_reject (model_trace cfg_fixed h_logout_reject) = true.
+Proof. vm_compute. reflexivity. Qed.
+
+(** a service with a locked activate proposal makes the approval of the appchain's activation fail after
+    the first service's "available" record was posted: with the events of failed transactions applied the
+    cache lets the (stored: paused) service through *)
+Definition h_stale_cache : list op :=
+  (setup ++ [ORegSvc 1 11 []; OConclude 0 true; OSvcOp 1 11 []; OConclude 0 true; OSvcOp 2 11 []; OChainOp 1 1; OConclude 0 true;
+             OChainOp 2 1; OConclude 0 true; OIbtp 10 20])%list.
+
+Lemma stale_cache_refuted :
+  P_b h_stale_cache (model_trace (cfg_of_bits true true false) h_stale_cache) = false.
+Proof. vm_compute. reflexivity. Qed.
+
+Lemma stale_cache_fixed : P_b h_stale_cache (model_trace cfg_fixed h_stale_cache) = true.
+Proof. vm_compute. reflexivity. Qed.
+
+(** not reloading the cache at start is harmless for the property on its own: a miss falls back to the store *)
+Lemma no_reload_harmless f h src dst :
+  d_cache_failed_events f = false ->
+  let s := run_ops f st0 h in gate_sound (svcs s) src dst (ibtp_outcome s src dst) = true.
+Proof. exact (gate_theorem f h src dst). Qed.
+
+(** ... but together with a stale entry a restarted node and a running node answer differently *)
+Lemma restart_divergence :
+  let f := cfg_of_bits true true false in
+  let h := firstn 17 h_stale_cache in
+  ibtp_outcome (run_ops f st0 h) 10 20 <> ibtp_outcome (run_ops f st0 (h ++ [ORestart])) 10 20.
+Proof. vm_compute. discriminate. Qed.
+
+(** non-vacuity: requests are accepted, refused at the source, and recorded as begin-failure *)
+Example gate_example :
+  map r_out (trace cfg_fixed st0 (setup ++ [OIbtp 10 20; OSvcBlack 20 [10]; OIbtp 10 20; OSvcOp 1 10 []; OConclude 0 true; OIbtp 10 20]))%N
+  = [9; 9; 9; 9; 9; 9; 9; 9; 0; 9; 1; 9; 9; 2]%N.
+Proof. vm_compute. reflexivity. Qed.
+
+Example cascade_example :
+  map (fun e : N * svc => (fst e, sv_status (snd e))) (ob_svcs (obs_of (last (trace cfg_fixed st0 (setup ++ [OChainOp 1 1; OConclude 0 true]))
+                                                                           {| r_ok := true; r_out := 9; r_log := []; r_state := st0 |})))
+  = [(10, St_Pause); (20, St_Available)]%N.
+Proof. vm_compute. reflexivity. Qed.
+
+Example forever_example :
+  let h := (setup ++ [OSvcOp 3 10 []; OConclude 0 true; OSvcOp 2 10 []; ORegSvc 1 10 []; OIbtp 10 20])%list in
+  map (fun r => (r_ok r, r_out r)) (skipn 9 (trace cfg_fixed st0 h)) = [(true, 9); (false, 9); (false, 9); (true, 2)]%N.
+Proof. vm_compute. reflexivity. Qed.
+
+(** ** the trace predicate as a proposition *)
+Inductive P_from : list op -> obs -> list obs -> Prop :=
+| P_end_ops prev tr : P_from [] prev tr
+| P_end_tr h prev : P_from h prev []
+| P_step o h ob tr prev :
+    gate_obs o ob = true -> declared_step prev ob = true -> forever_step prev ob = true -> cascade_obs ob = true ->
+    P_from h ob tr -> P_from (o :: h) prev (ob :: tr).
+
+Lemma P_trace_from_spec : forall h prev tr i, P_trace_from h prev tr i = 0%N <-> P_from h prev tr.
+Proof.
+  induction h as [|o h IH]; intros prev tr i.
+  - cbn [P_trace_from]. split; [intros _; constructor | reflexivity].
+  - destruct tr as [|ob tr]; cbn [P_trace_from].
+    + split; [intros _; constructor | reflexivity].
+    + destruct (gate_obs o ob) eqn:G; cbn [negb].
+      2:{ split; [intro H; exfalso; lia | intro H; inversion H; subst; congruence]. }
+      destruct (declared_step prev ob) eqn:D; cbn [negb].
+      2:{ split; [intro H; exfalso; lia | intro H; inversion H; subst; congruence]. }
+      destruct (forever_step prev ob) eqn:F; cbn [negb].
+      2:{ split; [intro H; exfalso; lia | intro H; inversion H; subst; congruence]. }
+      destruct (cascade_obs ob) eqn:C; cbn [negb].
+      2:{ split; [intro H; exfalso; lia | intro H; inversion H; subst; congruence]. }
+      rewrite IH. split; [intro H; constructor; assumption | intro H; inversion H; subst; assumption].
+Qed.
+
+Lemma P_b_spec h tr : P_b h tr = true <-> P_from h obs0 tr.
+Proof. unfold P_b, P_trace. rewrite N.eqb_eq. apply P_trace_from_spec. Qed.
